@@ -177,16 +177,64 @@ def _merge_dests(per_kind: dict[str, dict[str, str]], fails: dict[str, str]) -> 
             fails[f"tofile-{kind}@{label}"] = f"dest={members[0]}: {by_dest[members[0]]}"
 
 
+SEQUENCES = [
+    ("numpy", "tofile:bytesio", "tofile:file0", "tobytes"),
+    ("tobytes", "tofile:file_mid", "numpy", "tofile:bytesio_mid"),
+    ("tofile:bytesio", "tofile:file0", "numpy", "tobytes", "tofile:file_mid"),
+    ("array", "tofile:writer", "tobytes", "tofile:file_unbuffered"),
+]
+
+
+def _sequences(env: Env, make, exp: bytes, counts: Counter, fails: dict[str, str]) -> None:
+    """Every accessor, judged exactly as in phases A-C, but called in several orders on one instance.
+    Only run when each accessor was right on a fresh instance, so a failure here is an effect of the
+    call history (state kept by an earlier accessor)."""
+    # all orders for sub-byte element types (packed bytes != element array), one order (rotating) otherwise
+    seqs = SEQUENCES if env.spec.bits < 8 else [SEQUENCES[counts["obs_construct"] % len(SEQUENCES)]]
+    for seq in seqs:
+        t = make()
+        done: list[str] = []
+        for step in seq:
+            counts["obs_sequence_steps"] += 1
+            prior = "+".join(sorted({d.split(":")[0] for d in done})) or "fresh"
+            if step in ("numpy", "array"):
+                ok, a = _call(t.numpy if step == "numpy" else (lambda: np.asarray(t)))
+                msg = (f"raises {exc_id(a)}: {a}"[:300] if not ok else check_array(a, env))
+                kind = step
+            elif step == "tobytes":
+                ok, b = _call(t.tobytes)
+                msg = (f"raises {exc_id(b)}: {b}"[:300] if not ok else
+                       None if bytes(b) == exp else f"tobytes() = {_short(bytes(b))} ({len(bytes(b))} bytes) != expected {_short(exp)} ({len(exp)} bytes)")
+                kind = "tobytes"
+            else:
+                dest = step.split(":")[1]
+                err, content, before, after, pos, exp_pos = run_dest(dest, env, t, exp)
+                if err is not None:
+                    msg = f"raises {exc_id(err)}: {err}"[:300]
+                else:
+                    bad = _place(content, before, exp, after)
+                    msg = bad[1] if bad is not None else (
+                        f"file position after tofile is {pos}, expected {exp_pos}" if exp_pos is not None and pos != exp_pos else None)
+                kind = "tofile"
+            if msg:
+                fails.setdefault(f"sequence:{kind}-after-{prior}-mismatch", f"same instance, calls so far {done}: {step}: {msg}")
+                break
+            done.append(step)
+        counts["obs_sequences"] += 1
+
+
 def phase_of(check_id: str) -> str:
     """Which expensive phase a check belongs to (A/B - metadata, numpy, tobytes - always run)."""
     if check_id.startswith("tofile-"):
         return "C"
+    if check_id.startswith("sequence:"):
+        return "CE"
     if check_id.startswith(("serialize", "onnx-decode", "roundtrip")):
         return "D"
     return "AB"
 
 
-def evaluate(env0: Env, rep_name: str, counts: Counter | None = None, dests=None, phases="ABCD") -> dict[str, str]:
+def evaluate(env0: Env, rep_name: str, counts: Counter | None = None, dests=None, phases="ABCDE") -> dict[str, str]:
     rep = REPS[rep_name]
     env = env0.quiet() if rep.pyfloat else env0
     counts = counts if counts is not None else Counter()
@@ -300,6 +348,10 @@ def _evaluate(env: Env, rep, counts: Counter, dests, phases) -> dict[str, str]:
         if "C" in phases and len(exp) < 32768 and counts["obs_tofile"] % 64 < 8:
             err, content, *_ = run_dest(dest, env, make(), exp)
             counts[f"report_only_{dest}_" + ("raises:" + exc_id(err) if err is not None else "ok" if content == exp else "wrong-bytes")] += 1
+
+    # ---- E: accessor sequences on ONE instance (an accessor may cache and a later one reuse the cache) --
+    if "E" in phases and wrong_bytes is None and tobytes_exc is None and numpy_ok and not per_kind:
+        _sequences(env, make, exp, counts, fails)
 
     # ---- D: serialisation, onnx's decoder, and the round trip ---------------------------------------
     if "D" not in phases:
